@@ -102,6 +102,8 @@ N=[ # neutral edits: every check must stay at exit 0
  ("accountant/accountant.go","	if trx.IsEmpty() {\n		return Vertex{}, ErrTrxIsEmpty\n	}\n	if !isCanonical(trx.Spice) {\n		return Vertex{}, ErrNewLeafRejected\n	}","	if !isCanonical(trx.Spice) {\n		return Vertex{}, ErrNewLeafRejected\n	}\n	if trx.IsEmpty() {\n		return Vertex{}, ErrTrxIsEmpty\n	}","reorder two independent guards"),
  ("notaryserver/notary.server.go","	if in == nil || len(in.Hash) != 32 {\n		return nil, ErrRequestIsEmpty\n	}\n	ok, err := s.flash.HasAddress(in.Address)\n	if err != nil {\n		s.log.Error(fmt.Sprintf(\"balance endpoint","	if in == nil || len(in.Hash) != 32 || len(in.Address) == 0 {\n		return nil, ErrRequestIsEmpty\n	}\n	ok, err := s.flash.HasAddress(in.Address)\n	if err != nil {\n		s.log.Error(fmt.Sprintf(\"balance endpoint","an extra guard"),
  ("spice/spice.go","func (m *Melange) copyFrom(c Melange) {\n	m.Currency = c.Currency\n	m.SupplementaryCurrency = c.SupplementaryCurrency\n}","func (m *Melange) copyFrom(c Melange) {\n	m.SupplementaryCurrency = c.SupplementaryCurrency\n	m.Currency = c.Currency\n}","reorder two independent stores"),
+ ("notaryserver/notary.server.go","func (s *server) Propose(ctx context.Context, in *protobufcompiled.Transaction) (*emptypb.Empty, error) {\n	t := time.Now()","func (s *server) Propose(ctx context.Context, in *protobufcompiled.Transaction) (*emptypb.Empty, error) {\n	defer func() {\n		s.log.Debug(\"propose endpoint done\")\n	}()\n	t := time.Now()","a new deferred func literal in front of the others (closure ordinals shift)"),
+ ("accountant/accountant.go","	fm := newFoundsMemMap()\n","	logStep := func(msg string) { ab.log.Info(msg) }\n	logStep(\"truncate: carrying the previous checkpoint over\")\n	fm := newFoundsMemMap()\n","a new closure in front of truncate's callbacks (closure ordinals shift)"),
  ("accountant/replier.go","	maxArraySize = 500","	maxArraySize = 600","a larger orphan buffer (the property asks for a bound, not for 500)"),
  ("accountant/replier.go","	maxRepeats   = 25","	maxRepeats   = 40","more retries (still bounded)"),
  ("accountant/accountant.go","	truncateDiff       uint64 = 1_000","	truncateDiff       uint64 = 1_500","a deeper cut for truncation"),
